@@ -82,6 +82,78 @@ fn replay_stack<T: PartialEq>(stack: usize, script: &[DiffOp], old: &[T], new: &
     .map_err(|p| format!("{}: panic: {}", STACKS[stack], p))
 }
 
+/// A `Replace` adapter that went through an ABORTED script before (its sink failed at call j and
+/// the feeder stopped there, as the algorithms do), whose sink is then put in order again, must
+/// turn the next complete valid script into a valid script like a fresh one does.  (`Replace`
+/// returns to its initial state on every flush; `Compact` is bound to one pair of sequences and
+/// keeps its op list, no reuse is implied for it.)
+pub fn check_reuse_after_abort<T: PartialEq>(script: &[DiffOp], old: &[T], new: &[T]) -> Result<u64, String> {
+    use crate::instr::{Call, SharedRec};
+    let preludes: [Vec<DiffOp>; 3] = [
+        vec![DiffOp::Equal { old_index: 0, new_index: 0, len: 2 }],
+        vec![DiffOp::Delete { old_index: 0, old_len: 2, new_index: 0 }, DiffOp::Insert { old_index: 2, new_index: 0, new_len: 1 }],
+        vec![
+            DiffOp::Equal { old_index: 0, new_index: 0, len: 1 },
+            DiffOp::Delete { old_index: 1, old_len: 1, new_index: 1 },
+            DiffOp::Insert { old_index: 2, new_index: 1, new_len: 2 },
+            DiffOp::Equal { old_index: 2, new_index: 3, len: 1 },
+        ],
+    ];
+    let (mut del, mut ins) = (0, 0);
+    for op in script {
+        match *op {
+            DiffOp::Delete { old_len, .. } => del += old_len,
+            DiffOp::Insert { new_len, .. } => ins += new_len,
+            _ => {}
+        }
+    }
+    let mut runs = 0;
+    for (pi, prelude) in preludes.iter().enumerate() {
+        for j in 0..4usize {
+            let out = subject(|| {
+                let st = SharedRec::new();
+                let mut d = Replace::new(st.clone());
+                st.reset(Some(j));
+                let mut aborted = false;
+                for op in prelude {
+                    if op.apply_to_hook(&mut d).is_err() {
+                        aborted = true;
+                        break;
+                    }
+                }
+                if !aborted {
+                    let _ = d.finish();
+                }
+                st.reset(None);
+                feed(&mut d, script).unwrap();
+                st.calls()
+            })
+            .map_err(|p| format!("Replace reused after an aborted script: panic: {}", p))?;
+            let mut ops = vec![];
+            for c in &out {
+                match *c {
+                    Call::Eq(o, n, l) => ops.push(DiffOp::Equal { old_index: o, new_index: n, len: l }),
+                    Call::Del(o, l, n) => ops.push(DiffOp::Delete { old_index: o, old_len: l, new_index: n }),
+                    Call::Ins(o, n, l) => ops.push(DiffOp::Insert { old_index: o, new_index: n, new_len: l }),
+                    Call::Rep(o, ol, n, nl) => ops.push(DiffOp::Replace { old_index: o, old_len: ol, new_index: n, new_len: nl }),
+                    Call::Fin => {}
+                }
+            }
+            let what = || format!("Replace<sink> that went through script #{} aborted by its sink at call {} before (sink reset afterwards)", pi, j);
+            let st = validate_ops(&ops, old, 0..old.len(), new, 0..new.len(), true)
+                .map_err(|e| format!("{}: output is not a valid script: {} [output: {:?}]", what(), e, ops))?;
+            if st.deleted != del || st.inserted != ins {
+                return Err(format!(
+                    "{}: input script deletes {} and inserts {} items, output deletes {} and inserts {} [output: {:?}]",
+                    what(), del, ins, st.deleted, st.inserted, ops
+                ));
+            }
+            runs += 1;
+        }
+    }
+    Ok(runs)
+}
+
 pub fn check_script<T: PartialEq>(script: &[DiffOp], old: &[T], new: &[T]) -> Result<u64, String> {
     check_script_ranges(script, old, 0..old.len(), new, 0..new.len())
 }
@@ -147,6 +219,11 @@ impl<'a> Walk<'a> {
             match check_script(&self.script, self.old, self.new) {
                 Ok(f) => self.fp.add(f),
                 Err(e) => self.err = Some((self.script.clone(), e)),
+            }
+            if self.err.is_none() && self.old.len() + self.new.len() <= 6 {
+                if let Err(e) = check_reuse_after_abort(&self.script, self.old, self.new) {
+                    self.err = Some((self.script.clone(), e));
+                }
             }
             // the same script for sub-ranges: indices shifted by (3,5) inside padded arrays
             if self.err.is_none() && self.old.len() + self.new.len() <= 8 {
@@ -447,7 +524,7 @@ pub fn run(cfg: &RunCfg) -> CheckReport {
         "model_binding".into(),
         json!("every model trace is executed on the implementation (3 adapter stacks each); the model only generates inputs, the oracle inspects the implementation's output"),
     );
-    rep.part("scripts", json!({"scopes": space.describe(), "stacks": STACKS}), ex);
+    rep.part("scripts", json!({"scopes": space.describe(), "stacks": STACKS, "history": "scripts of pairs with N+M <= 6 are also fed to a Replace<sink> that went through one of 3 scripts aborted by its sink at call j (j = 0..3) before"}), ex);
     if rep.has_violation() {
         return rep;
     }
@@ -546,5 +623,8 @@ pub fn replay(case: &Value) -> Result<String, String> {
     let old = parse_seq(case, "old")?;
     let new = parse_seq(case, "new")?;
     let script = script_from_json(case.get("script").ok_or("no script")?)?;
+    if old.len() + new.len() <= 6 {
+        check_reuse_after_abort(&script, &old, &new)?;
+    }
     check_script(&script, &old, &new).map(|f| format!("holds; fingerprint {:x}", f))
 }
